@@ -194,3 +194,30 @@ macro_rules! union_witness {
 union_witness!(c08_witness_union_sorted_overlap, [1, 5], [3, 5], [1, 3, 5]);
 union_witness!(c08_witness_union_sorted_interleaved, [2, 4, 6], [1, 4, 7], [1, 2, 4, 6, 7]);
 union_witness!(c08_witness_union_sorted_subset, [1, 2, 3], [2, 3], [1, 2, 3]);
+
+// concrete witnesses (NO symbolic input) for LIMIT: LimitIter over four items against the slice it denotes
+macro_rules! limit_witness {
+    ($name:ident, $begin:expr, $end:expr, $want:expr) => {
+        #[kani::proof]
+        #[kani::unwind(8)]
+        fn $name() {
+            let items: [u8; 4] = [10, 20, 30, 40];
+            let want: &[u8] = &$want;
+            let mut it = LimitIter { inner: items.iter().copied(), cursor: 0, begin: $begin, end: $end, emptybuffer: false, buffer: VecDeque::with_capacity(8) };
+            let mut i = 0;
+            while i < want.len() {
+                assert!(it.next() == Some(want[i]), "LIMIT yields the items of the corresponding slice, in order");
+                i += 1;
+            }
+            assert!(it.next().is_none(), "and nothing after them");
+            kani::cover!(true, "reached");
+            core::mem::forget(it);
+        }
+    };
+}
+limit_witness!(c08_witness_limit_first2, 0, 2, [10, 20]);
+limit_witness!(c08_witness_limit_1_to_minus1, 1, -1, [20, 30]);
+limit_witness!(c08_witness_limit_0_to_minus1, 0, -1, [10, 20, 30]);
+limit_witness!(c08_witness_limit_last2, -2, 0, [30, 40]);
+
+// (a symbolic version - begin and end in -6..=6 over 4 items, buffer pre-sized - gave no verdict within an hour)
